@@ -190,6 +190,7 @@ pub fn random_transport(plan: &mut ClientPlan, rng: &mut Rng) {
     plan.sched.seed = rng.next_u64();
     plan.pt.bmp_reversed = rng.pct(30);
     plan.pt.rich_status = rng.pct(30);
+    plan.pt.abort_extras = if rng.pct(30) { 1 + rng.below(4) as u8 } else { 0 };
     plan.pt.status_seed = rng.next_u64();
     plan.pt.receipt_start = match rng.below(5) {
         0 => 1,
@@ -1015,6 +1016,23 @@ impl Check for ClientCheck {
                     p.cfg.max_tx = 2;
                     p
                 }));
+                // the terminal closes the connection cleanly between two exchanges of the call (after the
+                // own reversal, after the pending query, after the reversal of the dangling
+                // pre-authorisation, ...): the clean-up must still reach end-of-day
+                {
+                    let b = |t: &str| OpSpec::Begin { token: t.into(), res: ResOutcome::success() };
+                    let cl = |pending: PendingSpec| CleanupSpec { pending, ..CleanupSpec::plain() };
+                    let co = |t: &str, c: CleanupSpec| OpSpec::Commit { token: t.into(), amount: 700, rev: RevOutcome { pre: 1, status: true, prints: 1, end: EndSpec::Completion }, cleanup: c };
+                    let ca = |t: &str, c: CleanupSpec| OpSpec::Cancel { token: t.into(), rev: RevOutcome::success(), cleanup: c };
+                    let wl = vec![
+                        vec![b("A"), co("A", cl(PendingSpec::NoneFfff))],
+                        vec![b("A"), co("A", cl(PendingSpec::Dangling))],
+                        vec![b("A"), ca("A", cl(PendingSpec::NoBmp))],
+                        vec![b("A"), ca("A", cl(PendingSpec::Dangling))],
+                        vec![b("A"), b("B"), co("B", cl(PendingSpec::NoneFfff)), ca("A", cl(PendingSpec::Dangling))],
+                    ];
+                    fams.push(fault_at_every_point("connection_closed_between_exchanges_at_every_point", wl, vec![FaultKind::CloseIdle], 2));
+                }
                 let depth = 3;
                 fams.push(Family::new(
                     "all_histories_depth_3",
@@ -1036,6 +1054,13 @@ impl Check for ClientCheck {
                     let k = ((i / 256) % 4) as u8;
                     let ex = i / 1024;
                     abort_exchange_plan(ex, code, k, k / 2)
+                }));
+                // the abort of a reservation in the richer forms ZVT 2.2.9 allows: currency code, TLV
+                // container with extended error code (one or two bytes) and text
+                fams.push(Family::new("reservation_abort_with_currency_and_tlv", 4 * 256 * 2, true, |i, _| {
+                    let mut p = abort_exchange_plan(1, (i % 256) as u8, ((i / 256) % 2) as u8, 0);
+                    p.pt.abort_extras = 1 + (i / 512) as u8;
+                    p
                 }));
                 // the abort comes late: after 63..255 intermediate / print packets
                 fams.push(Family::new("abort_after_long_scripts", 9 * 6 * 4, true, |i, _| {
@@ -1215,7 +1240,7 @@ impl Check for ClientCheck {
             "C07" => vec!["probe.begin_refused", "probe.unknown_token_refused", "probe.begin_ok", "probe.begin_failed_by_terminal", "probe.reversal_aborted"],
             "C08" => vec!["probe.summary_compared", "probe.cleanup_with_dangling_receipt"],
             "C18" => vec!["probe.card_classified_after_retry", "probe.card_bank", "probe.card_membership", "probe.card_timeout", "probe.card_abort", "probe.card_unclassifiable", "probe.card_first_entry_without_id"],
-            "C19" => vec!["probe.cleanup_expected", "probe.cleanup_with_dangling_receipt", "probe.no_cleanup_while_open", "probe.eod_refused", "probe.dangling_reversal_refused"],
+            "C19" => vec!["probe.cleanup_after_idle_close", "probe.cleanup_expected", "probe.cleanup_with_dangling_receipt", "probe.no_cleanup_while_open", "probe.eod_refused", "probe.dangling_reversal_refused"],
             "C20" => vec!["probe.card_abort", "probe.reversal_aborted", "probe.eod_refused", "probe.configure_aborted", "probe.begin_failed_by_terminal"],
             _ => vec![],
         }
